@@ -266,7 +266,7 @@ pub fn install_panic_hook() {
 }
 
 fn short_msg(s: &str) -> String {
-    if s.len() > 160 { format!("{}...", &s[..160]) } else { s.to_string() }
+    if s.chars().count() > 160 { format!("{}...", s.chars().take(160).collect::<String>()) } else { s.to_string() }
 }
 
 pub fn take_panic() -> String {
